@@ -239,7 +239,7 @@ def units(tier):
         us.append(("unit_rankings_unbounded", (m,)))
         for n in range(2, nmax + 1):
             us.append(("unit_rankings", (m, n)))
-        shapes = [(1, 1), (2, 1), (1, 1, 1)] if tier == "quick" else [(1, 1), (2, 1), (1, 1, 1), (1, 2, 1), (1, 1, 1, 1), (1, 1, 1, 1, 1)]
+        shapes = [(1, 1), (2, 1), (1, 1, 1), (5, 2)] if tier == "quick" else [(1, 1), (2, 1), (1, 1, 1), (5, 2), (1, 2, 1), (1, 1, 1, 1), (1, 1, 1, 1, 1)]
         for s in shapes:
             for form in ("relabel", "scores", "default"):
                 for limit in ((False, True) if len(s) <= 2 else (False,)):
